@@ -70,6 +70,10 @@ static void rows_shard(long shard, void *arg) {
         if (n > 1) { lookup_check("nonrows-edit", v, n - 1); MC_ADD(C_NONROWS, 1); }
         for (const char *a = AL; *a; a++) { memcpy(v, r->domain, n); v[p] = *a; lookup_check("nonrows-edit", v, n); MC_ADD(C_NONROWS, 1); }
     }
+    for (size_t p = 0; p < n; p++) for (int b = 1; b < 256; b++) {         /* every byte value at every position (case folding must not alias anything else) */
+        if (b == (unsigned char)r->domain[p]) continue;
+        memcpy(v, r->domain, n); v[p] = (char)b; lookup_check("nonrows-anybyte", v, n); MC_ADD(C_NONROWS, 1);
+    }
     for (size_t p = 0; p <= n; p++) for (const char *a = AL; *a; a++) {   /* insertion (includes every one-char extension at either end) */
         memcpy(v, r->domain, p); v[p] = *a; memcpy(v + p + 1, r->domain + p, n - p);
         lookup_check("nonrows-edit", v, n + 1); MC_ADD(C_NONROWS, 1);
